@@ -24,6 +24,8 @@ open scoped CelerVerif.Num
 class NumX (α : Type) where
   /-- `std::cbrt` -/
   cbrt : α → α
+  /-- `std::pow` (FluctuationParams.cc) -/
+  pow : α → α → α
   /-- double → 64-bit signed integer as x86-64 `cvttsd2si` does it: truncation toward zero;
       NaN and values outside [−2^63, 2^63) give −2^63 ("integer indefinite") -/
   truncI64 : α → Int
